@@ -20,7 +20,7 @@
      chain R l             := adjacent elements of l are related by R;  qge x y := y <= x
    Floats are exact rationals; == is equality of rationals. *)
 From Coq Require Import ZArith QArith List Bool.
-From RV Require Import Base.Wire Base.NumM Gen.C19Motor Host.DCMotor Proofs.NumMP Proofs.DCMotorP.
+From RV Require Import Base.Wire Base.NumM Base.XFloat Gen.C19Motor Host.DCMotor Host.ActuatorsX Proofs.NumMP Proofs.DCMotorP Proofs.ActuatorsXP.
 Import ListNotations.
 Local Open Scope Q_scope.
 
@@ -217,6 +217,78 @@ Theorem C19_run_for : forall m d v qd qv,
   inverted m' = inverted m /\ pins m' = pins m.
 Proof. exact DCMotorP.run_for_exact. Qed.
 Print Assumptions C19_run_for.
+
+(* ====================================================================== *)
+(* IEEE specials (findings F-C19-motor-nan-speed, F-C19-motor-nonfinite-duration); *)
+(* model of the affected validations over floats with specials: Host/ActuatorsX.v  *)
+(* ====================================================================== *)
+
+(* REFUTED: |speed| <= 1 for every argument - _clamp_speed returns NaN for NaN (both of its
+   comparisons are False).  Witness: set_speed(float('nan')). *)
+Theorem C19_motor_speed_bound_nan_refuted : exists x, ~ in_unit (xclamp x).
+Proof. exact ActuatorsXP.xclamp_nan_refuted. Qed.
+Print Assumptions C19_motor_speed_bound_nan_refuted.
+
+(* PARTIAL (guard: the speed argument is not NaN; +-inf are fine): the clamped speed is in [-1, 1] *)
+Theorem C19_motor_speed_bound_partial : forall x, xnan x = false -> in_unit (xclamp x).
+Proof. exact ActuatorsXP.xclamp_partial. Qed.
+Print Assumptions C19_motor_speed_bound_partial.
+
+(* on finite floats the model with specials is the model used everywhere else *)
+Theorem C19_motor_clamp_agrees : forall q, xclamp (XFin q) = XFin (clampq q).
+Proof. exact ActuatorsXP.xclamp_finite. Qed.
+Print Assumptions C19_motor_clamp_agrees.
+
+(* REFUTED: "a call that raises for an invalid scalar argument leaves the object as it was" -
+   run_for/ramp only test duration_ms < 0, which NaN and +inf pass; the sleep then raises after
+   the speed has been applied and stop() never runs.
+   Witnesses: run_for(float('nan'), 0.5) and ramp(0.5, float('inf')) on a fresh motor. *)
+Theorem C19_run_for_failed_call_atomic_refuted :
+  exists m d v m' e k, run_for_x m d v = (m', e, XRaised k) /\ m' <> m.
+Proof. exact ActuatorsXP.run_for_nonatomic_refuted. Qed.
+Print Assumptions C19_run_for_failed_call_atomic_refuted.
+
+Theorem C19_ramp_failed_call_atomic_refuted :
+  exists m t d m' e k, ramp_x m t d = (m', e, XRaised k) /\ m' <> m.
+Proof. exact ActuatorsXP.ramp_nonatomic_refuted. Qed.
+Print Assumptions C19_ramp_failed_call_atomic_refuted.
+
+(* PARTIAL (guard: the duration is neither NaN nor +inf): failing run_for/ramp calls are atomic *)
+Theorem C19_run_for_failed_call_atomic_partial : forall m d v m' e k,
+  d <> XNaN -> d <> XPInf -> run_for_x m d v = (m', e, XRaised k) -> m' = m /\ e = [].
+Proof. exact ActuatorsXP.run_for_atomic_partial. Qed.
+Print Assumptions C19_run_for_failed_call_atomic_partial.
+
+Theorem C19_ramp_failed_call_atomic_partial : forall m t d m' e k,
+  d <> XNaN -> d <> XPInf -> ramp_x m t d = (m', e, XRaised k) -> m' = m /\ e = [].
+Proof. exact ActuatorsXP.ramp_atomic_partial. Qed.
+Print Assumptions C19_ramp_failed_call_atomic_partial.
+
+(* on finite durations the calls with specials are the calls of the finite model *)
+Theorem C19_run_for_x_agrees : forall m q v,
+  run_for_x m (XFin q) v =
+  (mstate (mstep m (MRunFor (PF q) v)), mevents (mstep m (MRunFor (PF q) v)), xres_of (mresult (mstep m (MRunFor (PF q) v)))).
+Proof. exact ActuatorsXP.run_for_x_finite. Qed.
+Print Assumptions C19_run_for_x_agrees.
+
+Theorem C19_ramp_x_agrees : forall m t q,
+  ramp_x m t (XFin q) =
+  (mstate (mstep m (MRamp t (PF q))), mevents (mstep m (MRamp t (PF q))), xres_of (mresult (mstep m (MRamp t (PF q))))).
+Proof. exact ActuatorsXP.ramp_x_finite. Qed.
+Print Assumptions C19_ramp_x_agrees.
+
+Example C19_motor_specials_nonvacuous :
+  xclamp XNaN = XNaN /\ xclamp XPInf = XFin 1 /\ xclamp XNInf = XFin (-(1)) /\
+  run_for_x m_zero XNaN (PF (1 # 2)) = (m_half, [MLvl (1 # 2) (1 # 2) Drive], XRaised XValueError) /\
+  run_for_x m_zero XPInf (PF (1 # 2)) = (m_half, [MLvl (1 # 2) (1 # 2) Drive], XRaised XOverflowError) /\
+  run_for_x m_zero XNInf (PF (1 # 2)) = (m_zero, [], XRaised XValueError) /\
+  run_for_x m_zero XNaN PO = (m_zero, [], XRaised XTypeError) /\
+  ramp_x m_zero (PF (1 # 2)) XPInf =
+    (mkMotor (PI 2, PI 3, PI 5) (1 # 40) false Drive (1 # 40) LastOther, [MLvl (1 # 40) (1 # 40) Drive], XRaised XOverflowError) /\
+  sleeps (snd (fst (ramp_x m_zero (PF (1 # 2)) XNaN))) = [] /\
+  fst (fst (ramp_x m_zero (PF (1 # 2)) XNaN)) = m_half.
+Proof. vm_compute. repeat split. Qed.
+Print Assumptions C19_motor_specials_nonvacuous.
 
 (* ====================================================================== *)
 (* non-vacuity: the hypotheses above are satisfiable by non-trivial states *)
